@@ -20,14 +20,14 @@ PID = "C02"
 
 def mc(chk, tier):
     """HexISAMC over every 3-word image from an alphabet of instruction bytes.  Four alphabets, one per group of opcodes (each with the
-    prefixes, a small LDAC and SVC), so that every named action of the state machine is taken; TLC's action coverage is read back and an
+    prefixes, SVC and LDAC 0 / 1 / 2 / 2 - the three system calls), so that every named action of the state machine is taken; TLC's action coverage is read back and an
     action that was never taken is a vacuity failure."""
     r = vlib.rng(2)
     groups = [[0x00, 0x10, 0x20, 0x30], [0x40, 0x50, 0x60, 0x70], [0x80, 0x90, 0xA0, 0xB0], [0xD0, 0xD1, 0xD2, 0xC0]]
     d = vlib.rundir("c02mc")
     jobs = []; alphas = []
     for g, ops in enumerate(groups):
-        core = [0xD3, 0xE0 | r.randrange(16), 0xF0 | r.randrange(16), 0x30 | r.randrange(3)] + [(o | r.randrange(4)) if o < 0xC0 else o for o in ops]
+        core = [0xD3, 0xE0 | r.randrange(16), 0xF0 | r.randrange(16), 0x30 | (2 if g == 3 else g)] + [(o | r.randrange(4)) if o < 0xC0 else o for o in ops]
         extra = [r.randrange(256) for _ in range(0 if tier == "quick" else 2)]
         B = sorted(set(core + extra))
         s16 = lambda x: x - 65536 if x >= 32768 else x
